@@ -229,3 +229,82 @@ def run(ctx):
     ctx.guard(r16_2)
     ctx.guard(r16_3)
     ctx.guard(r16_4)
+
+
+# ------------------------------------------------------------------------------------------------ derived operators
+class OpHooks(FwdHooks):
+    """FwdHooks + a concrete number of noise channels so that the per-column loop of the Levy-area Jacobian unrolls."""
+    M = 2
+
+    def tensor_method(self, interp, recv, name, args, kwargs, node, fi):
+        if name == "size":
+            if args and int(args[0]) == -1:
+                return Fraction(self.M)
+            if not args:
+                return (nf.sym("batch", True), nf.sym("d", True), Fraction(self.M))
+        return FwdHooks.tensor_method(self, interp, recv, name, args, kwargs, node, fi)
+
+
+def r16_5(ctx):
+    from .c02 import gdg_wiring
+    ctx.rep.rule("R16.5", "derived Milstein operator: g_prod_and_gdg_prod_* == (g v1, vjp(g, y, g (.) v2)) per noise type")
+    gdg_wiring(ctx, "R16.5")
+    ctx.floor("R16.5", 4)
+
+
+def r16_6(ctx):
+    rep, model = ctx.rep, ctx.model
+    rep.rule("R16.6", "derived Levy-area Jacobian (column-sum implementation) == sum_l jvp(g[..., l], y, (g a)[..., l]); "
+                      "zero for non-general noise; both implementations selected only for general noise")
+    fwd = model.cls(BASE_SDE, "ForwardSDE")
+    t, y, a = nf.sym("t", True), nf.sym("y"), nf.sym("a")
+    hooks = OpHooks()
+    it = Interp(model, hooks)
+    obj = it.instantiate(fwd, [user_sde("general", ("f", "g"))], {})
+    slot = obj.attrs.get("dg_ga_jvp_column_sum")
+    fi = slot.fi
+    rep.analysed(fi)
+    got = it.call(slot, [t, y, a], {})
+    G = solverkit.G(t, y)
+    ga = nf.bilinear("bmm", G, a)
+    want = Rat.const(0)
+    for col in range(OpHooks.M):
+        gc = nf.linear(f"getitem[...,{col}]", (), G)
+        gac = nf.linear(f"getitem[...,{col}]", (), ga)
+        want = want + nf.linear("JVP", (gc.key(), y.key()), gac)
+    rep.check(isinstance(got, Rat) and nf.equal(got, want), "R16.6", astq.loc(fi), f"{fi.key}::R16.6::definition",
+              f"dg_ga_jvp_column_sum (default implementation) evaluates to `{got}`; its definition sum_l "
+              f"d g[:, l]/dy . (g a)[:, l] is `{want}`", "equals its definition")
+    kw_ok = all(c[1].get("create_graph") is not None and c[1].get("allow_unused") is True for c in hooks.autograd_calls)
+    rep.check(kw_ok and len(hooks.autograd_calls) == OpHooks.M, "R16.6", astq.loc(fi), f"{fi.key}::R16.6::per-column",
+              f"{len(hooks.autograd_calls)} autograd calls for {OpHooks.M} noise channels (one JVP per column expected)",
+              "one JVP per column")
+    dom = solvers.Domains(model)
+    for nt in dom.noise_types.values():
+        it2 = Interp(model, OpHooks())
+        o2 = it2.instantiate(fwd, [user_sde(nt, ("f", "g"))], {})
+        s2 = o2.attrs.get("dg_ga_jvp_column_sum")
+        if nt == dom.noise_types.get("general"):
+            ok = getattr(s2, "fi", None) is not None and s2.fi.name.startswith("dg_ga_jvp_column_sum")
+            o3 = it2.instantiate(fwd, [user_sde(nt, ("f", "g"))], {"fast_dg_ga_jvp_column_sum": True})
+            s3 = o3.attrs.get("dg_ga_jvp_column_sum")
+            ok = ok and getattr(s3, "fi", None) is not None and s3.fi.name.startswith("dg_ga_jvp_column_sum") \
+                and s3.fi is not s2.fi
+            rep.check(ok, "R16.6", astq.loc(fwd.methods["__init__"]), f"{fwd.key}::R16.6::dispatch::{nt}",
+                      "general noise does not select the two Levy-area Jacobian implementations by the fast flag",
+                      "v1 / v2 selected by fast_dg_ga_jvp_column_sum")
+        else:
+            val = it2.call(s2, [t, y, a], {})
+            rep.check(not isinstance(val, Rat) and val == 0 or (isinstance(val, Rat) and val.is_zero()), "R16.6",
+                      astq.loc(fwd.methods["__init__"]), f"{fwd.key}::R16.6::dispatch::{nt}",
+                      f"for {nt} (commutative) noise the Levy-area Jacobian term is `{val}`, not zero", "zero")
+    ctx.floor("R16.6", 5)
+
+
+_run_base = run
+
+
+def run(ctx):
+    _run_base(ctx)
+    ctx.guard(r16_5)
+    ctx.guard(r16_6)
